@@ -67,7 +67,7 @@ func enumValueSets(p *Program, pl *Policy) map[string][]string {
 			}
 			continue
 		}
-		lit, err := p.VarLit("template", g.Name())
+		lit, err := p.VarLit("template", cname(g))
 		if err != nil {
 			continue
 		}
